@@ -47,6 +47,13 @@ CLAIMED.update({
             "changing kind among absent / array / empty array / number / string / object) is submitted: read() equals it with only identifiers added; resubmission stages "
             "nothing; commit result matches has_staging; an idle commit writes nothing; reopened replica equal. Found the deleted-array-descriptor defect (fixed).", "DESIGN.md §5 C04"),
 })
+CLAIMED.update({
+    "C13": ("Melda-level, executed from MIR, on a 6-block two-replica history with a concurrent pair and a merge commit: every commit creates exactly one new stored block whose "
+            "parents are the previous heads, whose index is max(parent)+1 and which becomes the only head; heads are ancestor-free and ancestor-closed after commit, meld+refresh, "
+            "reopen, time travel to any block and reload; metadata (symbolic char, nested, empty, None), parents and packs read back identically on both replicas and after reopen.", "DESIGN.md §5 C13"),
+    "C14": ("Same history: for EVERY head set replica a ever had (single heads and the two-head set after the merge) reload_until and new_until show exactly the recorded state, "
+            "a plain reload returns to the latest state, and every revision of the travelled history keeps its value and parent.", "DESIGN.md §5 C14"),
+})
 NA_REASON_PENDING = "check not built yet in this revision of /verif (Melda-level MIR reach in progress); not claimed"
 
 checks = []
